@@ -138,7 +138,7 @@ fn names_limit(text: &str, term: &Term) -> bool {
 pub fn check_net(w: &World, algo: &Algo, orient: &Orient, reverse: bool, tier: Tier, st: &mut Stats) {
     let net = &w.net;
     let size = net.size();
-    let comp_base = format!("{}.{}", algo.component(), if reverse { "reverse" } else { "forward" });
+    let comp_base = format!("{}.{}{}", algo.component(), if reverse { "reverse" } else { "forward" }, if matches!(orient, Orient::Edge { .. }) { ".by_edge" } else { "" });
     let unlimited = match run_with(w, &Term::Unlimited, algo, orient, reverse) {
         Ok(r) => r,
         Err(e) => {
@@ -221,7 +221,7 @@ pub fn check_net(w: &World, algo: &Algo, orient: &Orient, reverse: bool, tier: T
                 }
             }
         }
-        if ksp {
+        if ksp || matches!(orient, Orient::Edge { .. }) {
             continue;
         }
         // the iteration limit counts every pop, also of vertices without onward edges (which the recording frontier cannot
@@ -392,6 +392,20 @@ pub fn for_net(net: &Net, tier: Tier, st: &mut Stats) {
         if !algo.is_ksp() {
             check_net(&w, algo, &Orient::Vertex { o: 0, d: None }, false, tier, st);
             check_net(&w, algo, &Orient::Vertex { o: 0, d: Some(n - 1) }, true, tier, st);
+        }
+        // searches asked for by edge go through a wrapper around the vertex search: a rotating subset of the ordered pairs of
+        // distinct edges (adjacent ones are answered without a search) and destination-less searches from an edge;
+        // result-level clauses only
+        let m = net.m();
+        for o in 0..m {
+            for d in 0..m {
+                if o != d && (o * 7 + d * 3 + idx as usize) % tier.pick(16, 2) == 0 {
+                    check_net(&w, algo, &Orient::Edge { o, d: Some(d) }, false, tier, st);
+                }
+            }
+            if !algo.is_ksp() && (o + idx as usize) % tier.pick(8, 1) == 0 {
+                check_net(&w, algo, &Orient::Edge { o, d: None }, false, tier, st);
+            }
         }
     }
     if idx % tier.pick(64, 16) == 0 && net.m() >= 2 {
